@@ -241,5 +241,60 @@ func TestTargetsCases(t *testing.T) {
 			}
 		}
 	}
+	// IPv4-mapped spellings (16-byte ::ffff:a.b.c.d, legal in AAAA answers and ipv6hint). Whether such a value is "the same
+	// address" as a.b.c.d is not settled by the property, so only what holds under both readings is demanded: an enumeration
+	// restricted to one family never offers both spellings of one address (under one reading that is a duplicate, under the
+	// other one of the two is outside the family), and every offered address is one of the result's.
+	for _, d := range mappedTargets() {
+		bad++
+		w.Write(Ev{"case": tgtCase{Net: "mapped"}, "diff": d})
+	}
 	w.Write(Ev{"summary": true, "cases": len(cases), "bad": bad})
+}
+
+func mappedTargets() (diffs []string) {
+	m := func(a, b, c, d byte) net.IP { return net.IPv4(a, b, c, d).To16() }
+	results := []ech.ResolveResult{
+		{Port: 443, Address: []net.IP{{10, 0, 0, 1}, m(10, 0, 0, 1), net.ParseIP("2001:db8::a")}},
+		{Port: 8443, Address: []net.IP{m(10, 0, 0, 1), {10, 0, 0, 1}}, HTTPS: []dns.HTTPS{{Priority: 1, ALPN: []string{"h2"}, ECH: bytes.Clone(polLists["E1"])}}},
+		{Port: 443, HTTPS: []dns.HTTPS{{Priority: 1, Target: "t.example", ECH: bytes.Clone(polLists["E1"])}},
+			Additional: map[string][]net.IP{"t.example": {{192, 0, 2, 7}, m(192, 0, 2, 7)}}},
+		{Port: 443, HTTPS: []dns.HTTPS{{Priority: 1, IPv4Hint: []net.IP{{192, 0, 2, 9}}, IPv6Hint: []net.IP{m(192, 0, 2, 9)}}}},
+	}
+	for ri, r := range results {
+		known := map[netip.Addr]bool{}
+		add := func(ips []net.IP) {
+			for _, ip := range ips {
+				if a, ok := netip.AddrFromSlice(ip); ok {
+					known[a.Unmap()] = true
+				}
+			}
+		}
+		add(r.Address)
+		for _, h := range r.HTTPS {
+			add(h.IPv4Hint)
+			add(h.IPv6Hint)
+		}
+		for _, l := range r.Additional {
+			add(l)
+		}
+		for _, network := range []string{"tcp", "tcp4", "tcp6", "udp4", "udp6"} {
+			seen := map[string]netip.Addr{}
+			for tg := range r.Targets(network) {
+				a := tg.Address.Addr()
+				if !known[a.Unmap()] {
+					diffs = append(diffs, fmt.Sprintf("mapped result %d, Targets(%q): %v is not an address of the result", ri, network, tg.Address))
+				}
+				if network == "tcp" {
+					continue
+				}
+				key := fmt.Sprintf("%v|%d|%x|%v", a.Unmap(), tg.Address.Port(), tg.ECH, tg.ALPN)
+				if prev, dup := seen[key]; dup && prev != a {
+					diffs = append(diffs, fmt.Sprintf("mapped result %d, Targets(%q) offers both %v and %v: two spellings of one address in a one-family enumeration", ri, network, prev, a))
+				}
+				seen[key] = a
+			}
+		}
+	}
+	return diffs
 }
